@@ -798,4 +798,22 @@ def targetsMemo (kf : Coord → Nat) (d : Discovery) :
     let r := resolveMemo kf d memo c
     (r.1.map (fun r => (⟨r, c.ns, c.name⟩ : Target))) :: targetsMemo kf d r.2 rest
 
+/-! ## the physical layout of the patch file
+
+The property speaks about the documents of the stream; how long a physical line of the file is (a
+`jq -c` document with an embedded certificate bundle is ONE line of any length) is not part of it.
+`Hook.Run` takes the file with `os.ReadFile`: all bytes, in one piece (`readWhole`). A reader that goes
+through the file line by line with a token buffer of `limit` bytes and stops - without reporting it -
+at the first line that does not fit (`bufio.Scanner` whose `Err()` nobody looks at) is `readLines`. -/
+
+abbrev Line := List Nat               -- the bytes of one physical line, without its terminator
+
+/-- `os.ReadFile`, seen line by line: every line, whatever its length. -/
+def readWhole (ls : List Line) : List Line := ls
+
+/-- Line by line through a buffer of `limit` bytes; the first line that does not fit ends the reading. -/
+def readLines (limit : Nat) : List Line → List Line
+  | [] => []
+  | l :: rest => if l.length < limit then l :: readLines limit rest else []
+
 end ShellOp.Patch
